@@ -614,6 +614,7 @@ func (fr *Frame) applyContract(in ssa.Instruction, callee *ssa.Function, cc *ssa
 		// clauses that mention the callee's own ghost snapshots cannot be stated at a call site: they are simply not assumed
 		cond, ok := env.tryEvalBool(en.E)
 		if !ok {
+			vc.drop("postcondition-not-usable-at-call-site:" + c.Func + ": " + en.Src)
 			continue
 		}
 		fr.assume(cond)
